@@ -80,6 +80,7 @@ struct ExecOptions {
     ExecHooks *hooks = nullptr;
     bool final_cleanup = true;  // clean up objects still live at the end (not part of the transcript)
     int align_delta = 0;        // metamorphic: move every buffer to another alignment
+    int straddle_4g = 0;        // metamorphic: > 0 puts the buffer arena this many bytes below the 4 GiB address line
     bool no_pin = false;        // never touch the back-end pin (multi-threaded scenarios set it once, before threads start)
     bool heap_buffers = false;  // every buffer is its own malloc block ending exactly at the buffer's end (for ASan)
 };
@@ -101,10 +102,20 @@ public:
     };
 
     Exec(const Api &api, const ExecOptions &opt = ExecOptions()) : a(api), o(opt) {
+        if (o.straddle_4g > 0) {
+            // the arena starts `straddle_4g` bytes (a multiple of 64) below the 4 GiB line: the first buffers of every call
+            // have addresses with bit 31 set, and one of them usually crosses 2^32
+            size_t len = 0x10000 + ARENA + 0x10000;
+            void *want = (void *)(uintptr_t)0xFFFF0000u;
+            void *m = mmap(want, len, PROT_READ | PROT_WRITE, MAP_PRIVATE | MAP_ANONYMOUS | MAP_FIXED_NOREPLACE, -1, 0);
+            if (m == want) { low_map = m; low_len = len; arena = (uint8_t *)(uintptr_t)(0x100000000ull - (uint64_t)(o.straddle_4g & ~63)); return; }
+            if (m != MAP_FAILED) munmap(m, len);
+        }
         arena_raw.resize(ARENA + 128);
         arena = (uint8_t *)(((uintptr_t)arena_raw.data() + 63) & ~(uintptr_t)63);
     }
-    ~Exec() { release(); }
+    ~Exec() { release(); if (low_map) munmap(low_map, low_len); }
+    bool straddles_4g() const { return low_map != nullptr; }
 
     Transcript run(const Program &p) {
         release();
@@ -156,6 +167,7 @@ private:
     std::vector<Slot> slots;
     std::vector<uint8_t> arena_raw;
     uint8_t *arena = nullptr;
+    void *low_map = nullptr; size_t low_len = 0;
     size_t arena_pos = 0;
     struct Region { uint8_t *base; size_t len; };   // guard-delimited regions of the current call
     std::vector<Region> regions;
@@ -371,8 +383,8 @@ private:
         void *obj = s ? (void *)s->mem : nullptr;
         bool ro = s && s->map_len && !op.geti("sh") &&
                   (fn == "enc" || fn == "dec" || fn == "crypt" || fn == "crypt_tw");   // the functions whose object parameter is const
-        if (ro) mprotect(s->base, s->map_len, PROT_READ);
-        struct Unprotect { Slot *s; bool on; ~Unprotect() { if (on) mprotect(s->base, s->map_len, PROT_READ | PROT_WRITE); } } unprotect{s, ro};
+        if (ro) { mprotect(s->base, s->map_len, PROT_READ); active_ro().lo = (uintptr_t)s->base; active_ro().hi = (uintptr_t)s->base + s->map_len; }
+        struct Unprotect { Slot *s; bool on; ~Unprotect() { if (on) { active_ro().lo = active_ro().hi = 0; mprotect(s->base, s->map_len, PROT_READ | PROT_WRITE); } } } unprotect{s, ro};
         begin_call(op);
         switch (kind) {
         case K128: sched<Skinny128Key_t, Skinny128TweakedKey_t, 16>(op, fn, s, obj, r, false); break;
